@@ -39,6 +39,8 @@ def parse : List String → Option (Option Ev)
   | ["mlk", m] => (lockOf m).map (fun m => some (.mlk m))
   | ["mul", m] => (lockOf m).map (fun m => some (.mul m))
   | ["ald", a, o, v] => (flagOf a).bind (fun a => (ordOf o).bind (fun o => (boolOf v).map (fun v => some (.ld a o v))))
+  | ["pwr", _, _] => some none   -- client datum (publication scenario): checked by the happens-before layer, stutter here
+  | ["prd", _, _] => some none
   | ["ast", a, "sc", v] => (flagOf a).bind (fun a => (boolOf v).map (fun v => some (.st a v)))
   -- an exchange whose result is ignored is a store for the protocol (the model's `st` is "a seq_cst write of the flag")
   | ["axc", a, "sc", v, _] => (flagOf a).bind (fun a => (boolOf v).map (fun v => some (.st a v)))
